@@ -72,6 +72,7 @@ PROPS = {
                                               "iter_registered_present_in_first_registration_order", "iter_own_vtable"])}),
     "C18": dict(suites={"plan": dict(fields=["calls", "err", "driver-exception"], oracles=["errors_exact", "status:setup-panic", "status:run-panic"],
                                      gens=["malformed"])}),
+    "C19": dict(nopar=True, suites={"plan": dict(meta=True, fields=LAYOUT + ["tl", "tlorder", "maxthr"], oracles=["meta_same_plan"])}),
     "C20": dict(suites={"plan": dict(fields=["print", "driver-exception"], oracles=["print_total", "print_matches"])}),
 }
 
